@@ -133,6 +133,21 @@ CHECKS["C20"] = {
               A("filldrain", "./checks/c20", "TestC20FillDrain", budget={"quick": 60, "thorough": 900})],
 }
 
+CHECKS["C03"] = {
+    "level": "exploration",
+    "engine": "enum",
+    "technique": "bounded-exhaustive enumeration of credential defects x methods x server states on the real server (and of nonce ages / mutations on both nonce managers) with a state-unchanged oracle from the Engine-A reference model",
+    "rule": "Engine C over the Engine-A harness: complete product of method in {Allocate, Refresh, Refresh0, CreatePermission, ChannelBind new, ChannelBind re-bind, Connect, ConnectionBind} x credential defect in "
+            "{no MESSAGE-INTEGRITY, no credentials at all, wrong key, each of the 160 single-bit flips of the HMAC, each truncation 0..19 of the attribute, unknown user, missing USERNAME / REALM / NONCE, "
+            "empty nonce, foreign nonce, other realm, every single-character substitution / deletion / insertion of a valid nonce, valid credentials of another user on an existing 5-tuple} x server state in "
+            "{no allocation, own allocation with permission and channel, other user's allocation}; oracle: never a success response, AllocationCount / relay-socket creations / full probe sweep identical to the "
+            "reference model before and after, 401 resp. 438 with NONCE and REALM where the statement names them, the fresh nonce of the last challenge is then accepted and the valid request succeeds; "
+            "nonce managers (NonceHash, ShortNonceHash with every hmacLen 2..32): mint at second offsets {0,1,59}, present at ages around 60 and 61 minutes, future-dated, other instance, all single-character mutations. "
+            "A class is (state, method, defect class) -> response.",
+    "parts": [A("server", "./checks/c03", "TestC03Server", budget={"quick": 60, "thorough": 600}),
+              A("nonce", "./checks/c03", "TestC03Nonce", budget={"quick": 60, "thorough": 600})],
+}
+
 ENGINES = [
     {"name": "sched", "path": "/verif/sched + /verif/shim + /verif/instr", "serves_properties": ["C18"],
      "kind_free_text": "Engine B: controlled scheduler over sources instrumented at check time (go build -overlay): stateless DFS over all schedules with at most k preemptions, prefix replay, work stealing between shard processes"},
